@@ -78,11 +78,15 @@ impl Interface for HashIface {
     }
     fn send_pixels<const N: usize>(&mut self, pixels: impl IntoIterator<Item = [u8; N]>) -> Result<(), Self::Error> {
         self.mix(0xD0);
-        for p in pixels {
-            for b in p {
-                self.mix(b);
-                self.words += 1;
+        // index loops: under Miri on a 16-bit target every temporary costs address space
+        let mut it = pixels.into_iter();
+        while let Some(p) = it.next() {
+            let mut i = 0;
+            while i < N {
+                self.mix(p[i]);
+                i += 1;
             }
+            self.words += N as u32;
         }
         Ok(())
     }
